@@ -1,15 +1,18 @@
 import Mathlib.Tactic.Ring
 import Mathlib.Tactic.FieldSimp
+import Mathlib.Algebra.Order.Group.Abs
 
 /-! `kernel_eq`: closes "generated definition = closed form" goals after unfolding; tries
     definitional equality first, then ring normalisation with and without clearing denominators,
-    so that algebraically neutral rewrites of the Python source keep the L1 layer green. -/
+    argument-wise normalisation under one to three function applications (`log`, `sqrt`, `max`, …)
+    and `|x| = |−x|`, so that algebraically neutral rewrites of the Python source keep the L1 layer
+    green.  (`ring1` rather than `ring`: the latter falls back to `ring_nf` without failing.) -/
 macro "kernel_eq" : tactic =>
   `(tactic| first
     | rfl
-    | ring
-    | (ring_nf; done)
-    | (field_simp; ring)
-    | (congr 1 <;> first | rfl | ring | (field_simp; ring))
-    | (congr 2 <;> first | rfl | ring | (field_simp; ring))
-    | (congr 3 <;> first | rfl | ring | (field_simp; ring)))
+    | ring1
+    | (field_simp; ring1)
+    | (congr 1 <;> first | rfl | ring1 | (field_simp; ring1))
+    | (rw [← abs_neg]; congr 1 <;> first | rfl | ring1 | (field_simp; ring1))
+    | (congr 2 <;> first | rfl | ring1 | (field_simp; ring1))
+    | (congr 3 <;> first | rfl | ring1 | (field_simp; ring1)))
